@@ -23,6 +23,8 @@ structure UClient where
   prog : Prog String                     -- the program renders its own result
   holding : List Probe := []             -- ghost: probes popped and not yet resolved by this client
   dead : Bool := false                   -- crashed
+  arrival : Int := 0                     -- clock value when the client arrived at its pending call
+  started : Bool := false                -- has it begun (eager clients begin at once, lazy ones when first scheduled)
 
 def UClient.result? (c : UClient) : Option String :=
   if c.dead then some "crashed" else c.prog.result?
@@ -44,7 +46,10 @@ inductive UEv where
 /-- normalise: perform leading silent calls; returns the names of the silent repository calls performed -/
 def UClient.settle (c : UClient) (s : AbsState) (clock : Int) : AbsState × UClient × List String :=
   let (s', p', names) := Prog.skipSilent 64 c.prog s clock []
-  (s', { c with prog := p' }, names)
+  (s', { c with prog := p', arrival := clock }, names)
+
+/-- the clock value the pending call works with -/
+def UClient.callClock (c : UClient) (clock : Int) : Int := if c.prog.headAtArrival then c.arrival else clock
 
 /-- one event; also returns the repository calls performed, as `"<i>:<name>"` -/
 def USys.stepT (s : USys) : UEv → USys × List String
@@ -55,11 +60,13 @@ def USys.stepT (s : USys) : UEv → USys × List String
     | some c =>
       if !c.live then (s, [])
       else
-        let (a0, c0, n0) := c.settle s.abs s.clock
+        -- a lazily started client arrives now; an eager one arrived when its previous call returned
+        let (a0, c0, n0) := if c.started then (s.abs, c, []) else c.settle s.abs s.clock
+        let c0 := { c0 with started := true }
         if !c0.live then ({ s with abs := a0, clients := s.clients.set i c0 }, n0.map fun n => s!"{i}:{n}")
         else
           let h := c0.prog.headName
-          let (a1, p1) := c0.prog.step1 a0 s.clock
+          let (a1, p1) := c0.prog.step1 a0 (c0.callClock s.clock)
           let (a2, c2, n2) := ({ c0 with prog := p1 } : UClient).settle a1 s.clock
           ({ s with abs := a2, clients := s.clients.set i c2 }, (n0 ++ h.toList ++ n2).map fun n => s!"{i}:{n}")
   | .crash i effect =>
@@ -68,20 +75,19 @@ def USys.stepT (s : USys) : UEv → USys × List String
     | some c =>
       if !c.live then (s, [])
       else
-        let (a0, c0, n0) := c.settle s.abs s.clock
-        let h := c0.prog.headName
-        let a1 := if effect then (c0.prog.step1 a0 s.clock).1 else a0
-        let _ := h
-        ({ s with abs := a1, clients := s.clients.set i { c0 with dead := true } }, n0.map fun n => s!"{i}:{n}")
+        let (a0, c0, n0) := if c.started then (s.abs, c, []) else c.settle s.abs s.clock
+        let a1 := if effect then (c0.prog.step1 a0 (c0.callClock s.clock)).1 else a0
+        ({ s with abs := a1, clients := s.clients.set i { c0 with dead := true, started := true } }, n0.map fun n => s!"{i}:{n}")
   | .fault i effect =>
     match s.clients[i]? with
     | none => (s, [])
     | some c =>
       if !c.live then (s, [])
       else
-        let (a0, c0, n0) := c.settle s.abs s.clock
+        let (a0, c0, n0) := if c.started then (s.abs, c, []) else c.settle s.abs s.clock
+        let c0 := { c0 with started := true }
         let h := c0.prog.headName
-        let (a1, p1) := c0.prog.stepFault effect a0 s.clock
+        let (a1, p1) := c0.prog.stepFault effect a0 (c0.callClock s.clock)
         let (a2, c2, n2) := ({ c0 with prog := p1 } : UClient).settle a1 s.clock
         ({ s with abs := a2, clients := s.clients.set i c2 }, (n0 ++ h.toList ++ n2).map fun n => s!"{i}:{n}")
 
